@@ -733,6 +733,11 @@ def check_C18(ctx, rep):
             if replace or no_timer or later:
                 why = 'replace' if replace else ('no timer running' if no_timer else 'later expiry')
                 rep.ob('C18.R3', tu, 'timer-started-when:%s' % why.replace(' ', '-'), bool(st), '' if st else 'path with %s does not store the timer: %s' % (why, show_facts(S)))
+            # a path that does not start the timer must have established that one is running (slot tested Some);
+            # reading the slot only through unwrap_or conflates "none" with "expires now"
+            running = any(f[0] == 'variant' and f[2] == 'Some' and in_field(f[1], 'scheduled_internal_timer', 'SimState') for f in S)
+            rep.ob('C18.R3', tu, 'not-started-only-while-a-timer-runs', bool(st) or running,
+                   '' if (st or running) else 'path leaves the slot untouched without having tested that a timer is running: ' + show_facts(S))
             for f in st:
                 okv = f[3][0] == 'agg' and f[3][2] == 'Some' and is_new_expiry(dict(f[3][3])['0'])
                 rep.ob('C18.R1', tu, 'expiry-is-now-plus-duration', okv, 'stores %s' % shape(f[3]))
